@@ -83,13 +83,17 @@ fn gen(rng: &mut Rng, case: u64) -> Case {
         }
         for _ in 0..1 + rng.usize(2) {
             t += rng.step_ns(1_000, 36_000_000_000_000);
-            h.push(match rng.below(3) { 0 => Ev::None, 1 => Ev::Err(1), _ => Ev::Err(2) });
+            h.push(match rng.below(4) { 0 => Ev::None, k => Ev::Err(k as u8 - 1) }); // Err(0) = Error::FromNone, Err(1|2) = Error::Other
         }
     }
     h.truncate(target.min(64));
     Case { sp, kp: rng.moderate(1e4), ki: rng.moderate(1e4), kd: rng.moderate(1e4), h }
 }
 fn run_real(c: &Case, shift: i64, scale: f32) -> Vec<Out<f32>> {
+    run_observed(c, shift, scale, None)
+}
+/// `skip[i]`: do not call get() after step i (placeholder Ok(None) returned there, never compared)
+fn run_observed(c: &Case, shift: i64, scale: f32, skip: Option<&[bool]>) -> Vec<Out<f32>> {
     let src = Src::<f32>::new();
     let mut pid = PIDControllerStream::new(src.dynref(), c.sp * scale, PIDKValues::new(c.kp, c.ki, c.kd));
     let mut outs = Vec::with_capacity(c.h.len());
@@ -100,7 +104,8 @@ fn run_real(c: &Case, shift: i64, scale: f32) -> Vec<Out<f32>> {
             Ev::Err(x) => src.err(*x),
         }
         let _ = pid.update();
-        outs.push(pid.get());
+        let i = outs.len();
+        outs.push(if skip.map(|s| s[i]).unwrap_or(false) { Ok(None) } else { pid.get() });
     }
     outs
 }
@@ -205,6 +210,17 @@ fn main() {
             };
             if !ok {
                 rep.violation("C04/pow2-scaling", "pid", case, format!("step {}: {:?} vs inputs*2^{}: {:?}; case={:?}", i, outs[i], k, scaled[i], c));
+                break;
+            }
+        }
+        // ---- (b') the output does not depend on whether get() was called after earlier updates
+        let skip: Vec<bool> = (0..c.h.len()).map(|_| rng.chance(0.6)).collect();
+        let sparse = run_observed(&c, 0, 1.0, Some(&skip));
+        rep.eval();
+        rep.tally("sparse_observation_runs");
+        for i in 0..outs.len() {
+            if !skip[i] && !out_same(&outs[i], &sparse[i], fsame) {
+                rep.violation("C04/get-schedule-affects-output", "pid", case, format!("step {}: {:?} when read after every update, {:?} when earlier reads are skipped (skip={:?}); case={:?}", i, outs[i], sparse[i], skip, c));
                 break;
             }
         }
